@@ -11,45 +11,119 @@ from . import common
 
 PROP = "C09"
 INFO = dict(
-    technique="Lean 4 proof (batching = unbatched for every batch size by induction; failure-mask exactness; memo "
-              "state machine refines the stateless function over every operation history) + model/implementation "
-              "correspondence and fresh-transform oracle on random histories",
-    level_text="Theorems over an executable model of Transform._apply_batched, AbstractPWA._apply_batched and the "
-               "CachedPWA memo: batched = unbatched for every k>=1 and every list; the batched piecewise-affine "
-               "failure mask equals the unbatched one (one entry per input point, exactly the outside points); for "
+    technique="Lean 4 proof (batching = unbatched for every batch size by induction; the piecewise-affine point "
+              "location of index_alpha_beta modelled array operation by array operation over the rationals and "
+              "proved equal to its per-point reading: failure-mask exactness, batch-size / grouping / permutation "
+              "independence, barycentric image; chains and WithDims as folds; memo state machine refines the "
+              "stateless function over every operation history) + regenerated write / hidden-state tables with "
+              "`decide` obligations + model/implementation correspondence and fresh-transform oracle on random "
+              "histories",
+    level_text="Theorems over an executable model of Transform._apply_batched, AbstractPWA._apply_batched / _apply, "
+               "alpha_beta, containment_from_alpha_beta, index_alpha_beta (numpy's nonzero + repeated-index "
+               "assignment: the last containing triangle stays), pwa_point_in_pointcloud, TransformChain._apply, "
+               "WithDims._apply and the CachedPWA memo: batched = unbatched for every k>=1 and every list, also "
+               "for chains; the piecewise-affine failure mask has one entry per input point and flags exactly the "
+               "points outside every source triangle, batched (any k, any grouping) or not; (alpha, beta) are the "
+               "barycentric coordinates, containment = closed triangle, image = barycentric combination of the "
+               "target vertices; the result is equivariant under every permutation of the input points; for "
                "every finite interleaving of applies and in-place edits the memoised transform returns the "
-               "stateless result.  The behaviours coded before the repairs are refuted by kernel-checked witnesses. "
-               "Tied to /repo by running real histories (array reuse, in-place edits, inputs 1e-7 apart, all batch "
-               "sizes 1..n+2, in/out-of-domain mixes) on every transform class and diffing against the Lean driver; "
-               "an independent fresh-transform oracle decides the property on the real code.",
+               "stateless piecewise-affine result.  The behaviours coded before the repairs are refuted by "
+               "kernel-checked witnesses.  Tied to /repo by (i) the correspondence: real histories (array reuse, "
+               "in-place edits, inputs 1e-7 apart), all batch sizes 1..n+2, zero/one point, integer dtypes, "
+               "in/out-of-domain mixes, meshes with overlapping triangles and holes, random chains, pixel grids "
+               "against point clouds, each diffed against the Lean driver running the same definitions over exact "
+               "rationals; (ii) regenerated tables: attribute writes of every public application on live objects of "
+               "every Transform subclass, class coverage, places for module-level state, measured global writes; "
+               "(iii) an independent fresh-transform / exact-geometry oracle that decides the property on the real code.",
     level_note="Trusted: Lean kernel; axioms propext/Classical.choice/Quot.sound; Python harness; driver parser. "
-               "Modelled, not verified: the per-point map of each transform class is an abstract function (only the "
-               "memo and the batching logic are modelled); numpy slicing/vstack semantics; float rounding differences "
-               "between batch shapes are absorbed by a 1e-9 tolerance.",
+               "Modelled, not verified: the per-point map of the non-piecewise transform classes is an abstract "
+               "function (affine members of chains are modelled exactly); numpy slicing/vstack/nonzero/fancy-"
+               "assignment semantics as transcribed; float rounding is absorbed by a 1e-9 tolerance and by rejecting "
+               "query points within 1e-6 (barycentric units) of a triangle edge, decided exactly.",
     rule="a case = one history (2-10 applies with reuse / in-place edits / near-equal inputs) or one (points, batch "
-         "size, in/out-of-domain mask) triple on one transform class; distinct = distinct (class, history/mask/batch "
-         "size); non-trivial = at least two applies or a batch size that is not 1, n or None",
-    partial=["statelessness of the non-caching transform classes: `pure_of_no_writes` (no attribute write => history "
-             "independent) is a theorem and the frame hypothesis is the regenerated obligation `applyWrites_ok` (measured "
-             "on live objects of every class each run); that a class's _apply reads nothing but its attributes and "
-             "its argument (no module-level state) is decided by the fresh-transform oracle only"],
+         "size, in/out-of-domain mask) triple on one transform class, or one (mesh, query points, batch size / "
+         "permutation) point-location case, or one (chain, points, batch size) case, or one (point cloud, pixel grid, "
+         "batch size) case; distinct = distinct (class, history/mask/batch size/mesh/points); non-trivial = at least "
+         "two applies or a batch size that is not 1, n or None",
+    partial=["statelessness of the non-caching transform classes is `pure_of_no_writes` / `apply_eq_fresh` under a frame "
+             "hypothesis that is checked, not proved: regenerated obligations `applyWrites_ok`, `globalWrites_ok` "
+             "(measured on live objects of every class for every public application each run), "
+             "`transformClasses_covered`, `hiddenState_ok` (no mutable module global / class attribute / default / "
+             "function attribute / memoising wrapper / closure cell in menpo/transform/** and menpo/image/boolean.py); "
+             "state kept outside those modules (numpy, other packages) is decided by the fresh-transform oracle only",
+             "points within 1e-6 of a triangle edge (in particular points shared by two triangles): the model decides "
+             "them exactly (closed triangles, last containing triangle), the theorems cover them and "
+             "`triImage_shared_edge` shows that on a consistent mesh the choice does not show in the result, but the "
+             "correspondence does not sample them because the float computation may decide them either way"],
     assumptions=["numpy computations on equal values and equal shapes are deterministic to 1e-10"],
     design_ref="DESIGN.md section 6, C09")
 IMPORTS = ["MenpoModel.Props.C09", "MenpoModel.GenProps.C09"]
+GEN_THEOREMS = [
+    "MenpoModel.GenProps.C09.applyWrites_ok",
+    "MenpoModel.GenProps.C09.transformClasses_covered",
+    "MenpoModel.GenProps.C09.hiddenState_ok",
+    "MenpoModel.GenProps.C09.globalWrites_ok",
+]
 THEOREMS = [
+    # batching
     "MenpoModel.C09.batched_eq_unbatched_hom",
     "MenpoModel.C09.batched_eq_unbatched",
+    # abstract failure mask
     "MenpoModel.C09.pwa_mask_exact_unbatched",
     "MenpoModel.C09.pwa_batched_fixed_eq",
     "MenpoModel.C09.pwa_batched_coded_refuted",
+    "MenpoModel.C09.pwa_grouping_eq",
+    "MenpoModel.C09.pwa_perm_equivariant",
+    "MenpoModel.C09.pwa_reindex_of_ok",
+    # point location of the piecewise affine transform
+    "MenpoModel.C09.containmentFromAlphaBeta_eq",
+    "MenpoModel.C09.indexAlphaBeta_eq",
+    "MenpoModel.C09.pwaApply_eq_toPwa",
+    "MenpoModel.C09.locate_spec",
+    "MenpoModel.C09.pointMap_spec",
+    "MenpoModel.C09.pwa_mask_outside_every_triangle",
+    "MenpoModel.C09.pwaApplyBatched_eq",
+    "MenpoModel.C09.pwaApply_perm_equivariant",
+    "MenpoModel.C09.pointInPointcloud_eq",
+    "MenpoModel.C09.pointInPointcloud_batch_independent",
+    # barycentric algebra
+    "MenpoModel.C09.gram_eq_cross_sq",
+    "MenpoModel.C09.alphaBeta_reconstruct",
+    "MenpoModel.C09.alphaBeta_unique",
+    "MenpoModel.C09.contains_iff_closed_triangle",
+    "MenpoModel.C09.pointMap_barycentric",
+    "MenpoModel.C09.pointMap_identity",
+    "MenpoModel.C09.locate_of_unique",
+    "MenpoModel.C09.pointMap_eq_triImage",
+    "MenpoModel.C09.triImage_rotate",
+    "MenpoModel.C09.triImage_swap",
+    "MenpoModel.C09.triImage_shared_edge",
+    # chains and wrappers
+    "MenpoModel.C09.chain_isHom",
+    "MenpoModel.C09.chain_batched_eq_unbatched",
+    "MenpoModel.C09.chain_pointwise",
+    "MenpoModel.C09.chain_pointwise_batched",
+    "MenpoModel.C09.chain_nested",
+    "MenpoModel.C09.withDims_batched",
+    "MenpoModel.C09.chainE_wrap",
+    "MenpoModel.C09.applyBatchedE_ok",
+    "MenpoModel.C09.applyBatchedE_error_one_batch",
+    "MenpoModel.C09.chain_generic_batched_refuted",
+    "MenpoModel.C09.chain_pwa_batched_fixed_eq",
+    # memo / histories
     "MenpoModel.C09.apply_pure_fixed",
     "MenpoModel.C09.fresh_memoOk",
     "MenpoModel.C09.apply_pure_coded_refuted_aliasing",
     "MenpoModel.C09.apply_pure_coded_refuted_tolerance",
+    "MenpoModel.C09.apply_pure_two_attributes",
+    "MenpoModel.C09.fresh_memo2Ok",
+    "MenpoModel.C09.apply_pure_keyfirst_refuted",
+    "MenpoModel.C09.cachedPwa_history_pure",
+    # frame => purity
     "MenpoModel.C09.pure_of_no_writes",
     "MenpoModel.C09.pure_of_no_writes_interleaved",
-    "MenpoModel.GenProps.C09.applyWrites_ok",
-]
+    "MenpoModel.C09.apply_eq_fresh",
+] + GEN_THEOREMS
 
 TOL = 1e-9
 
@@ -128,6 +202,12 @@ def zoo(rng):
     tpts = mesh.points.dot(np.array([[1.25, 0.25], [-0.5, 1.5]])) + np.array([3.0, -2.0])
     out.append(("PiecewiseAffine", (lambda: mt.PiecewiseAffine(mesh.copy(), PointCloud(tpts.copy()))), 2, ("pwa", mesh)))
     out.append(("PythonPWA", (lambda: PythonPWA(mesh.copy(), PointCloud(tpts.copy()))), 2, ("pwa", mesh)))
+    # a chain whose last member is piecewise affine: its domain is the mesh seen through the first member
+    # (a translation by a multiple of 1/4, so that query points stay exact); domain tag carries the offset
+    off = [rng.randint(-8, 8) / 4.0, rng.randint(-8, 8) / 4.0]
+    out.append(("ChainWithPWA", (lambda: mt.TransformChain(
+        [mt.Translation(np.array(off)), mt.PiecewiseAffine(mesh.copy(), PointCloud(tpts.copy()))])), 2,
+        ("pwa", mesh, off)))
     return out
 
 
@@ -139,7 +219,8 @@ def inside_point(rng, mesh):
     c = rng.randint(2, 10)
     w = [a / float(a + b + c), b / float(a + b + c), c / float(a + b + c)]
     p = sum(w[i] * mesh.points[tl[i]] for i in range(3))
-    return [float(p[0]), float(p[1])]
+    # dyadic (exact under the translations the generators use); weights >= 2/30 keep it well inside
+    return [round(float(p[0]) * 64) / 64.0, round(float(p[1]) * 64) / 64.0]
 
 
 def outside_point(rng):
@@ -150,9 +231,10 @@ def outside_point(rng):
 
 
 def gen_points(rng, n, ndims, domain, frac_out=0.0):
-    """(points ndarray, in_domain list)"""
+    """(points ndarray of shape (n, ndims), in_domain list)"""
     import numpy as np
     pts, ind = [], []
+    off = domain[2] if (domain != "all" and len(domain) > 2) else None
     for _ in range(n):
         if domain == "all":
             pts.append([rng.randint(-64, 64) / 4.0 + 0.125 for _ in range(ndims)])
@@ -164,7 +246,9 @@ def gen_points(rng, n, ndims, domain, frac_out=0.0):
             else:
                 pts.append(inside_point(rng, domain[1]))
                 ind.append(True)
-    return np.array(pts), ind
+            if off is not None:
+                pts[-1] = [pts[-1][0] - off[0], pts[-1][1] - off[1]]
+    return np.array(pts, dtype=float).reshape(n, ndims), ind
 
 
 def safe_apply(t, x, **kw):
@@ -191,6 +275,355 @@ def same(a, b, tol=TOL):
     return a[1] == b[1]
 
 
+# ------------------------------------------------------------------------------- exact geometry (oracle side)
+# Orientation-based barycentric weights over exact rationals: independent of the Gram-determinant formula that
+# menpo's alpha_beta (and the Lean model of it) use.
+
+MARGIN = common.Fraction(1, 10 ** 6)
+
+
+def _cross(u, v):
+    return u[0] * v[1] - u[1] * v[0]
+
+
+def tri_weights(A, B, C, P):
+    """exact barycentric weights (wA, wB, wC) of P; None for a degenerate triangle"""
+    ab, ac, ap = (B[0] - A[0], B[1] - A[1]), (C[0] - A[0], C[1] - A[1]), (P[0] - A[0], P[1] - A[1])
+    den = _cross(ab, ac)
+    if den == 0:
+        return None
+    wb, wc = _cross(ap, ac) / den, _cross(ab, ap) / den
+    return 1 - wb - wc, wb, wc
+
+
+def fpts(arr):
+    return [tuple(common.frac(v) for v in row) for row in arr]
+
+
+def locate_exact(spts, trilist, P):
+    """(robust, containing triangle numbers): robust = P is at least MARGIN (barycentric units) away from the
+    boundary of every triangle, so that the float decision cannot differ from the exact one"""
+    cont, robust = [], True
+    for t, (i, j, k) in enumerate(trilist):
+        w = tri_weights(spts[i], spts[j], spts[k], P)
+        if w is None:
+            return False, []
+        m = min(w)
+        if -MARGIN < m < MARGIN:
+            robust = False
+        if m > 0:
+            cont.append(t)
+    return robust, cont
+
+
+def image_exact(spts, tpts, trilist, P, t):
+    i, j, k = trilist[t]
+    w = tri_weights(spts[i], spts[j], spts[k], P)
+    return tuple(w[0] * tpts[i][d] + w[1] * tpts[j][d] + w[2] * tpts[k][d] for d in range(2))
+
+
+def mesh_tokens(points, trilist):
+    return "%s %d %s" % (common.fmat(points), len(trilist), " ".join("%d %d %d" % tuple(t) for t in trilist))
+
+
+# ------------------------------------------------------------------------------- point location of the PWA
+
+def random_mesh(rng, np):
+    """(kind, source points, trilist): the jittered grid, optionally with triangles that overlap others (the
+    choice among several containing triangles), with holes, or a single triangle"""
+    mesh = _grid_mesh(rng, np)
+    pts, tl = mesh.points.copy(), mesh.trilist.tolist()
+    kind = rng.choice(["grid", "grid", "overlap-first", "overlap-last", "overlap-both", "holes", "single", "shuffled"])
+    big = [[0, 2, 6], [8, 6, 2], [0, 8, 6], [2, 0, 8]]
+    if kind == "overlap-first":
+        tl = [rng.choice(big)] + tl
+    elif kind == "overlap-last":
+        tl = tl + [rng.choice(big)]
+    elif kind == "overlap-both":
+        tl = [rng.choice(big)] + tl + [rng.choice(big)]
+    elif kind == "holes":
+        for _ in range(rng.randint(1, 3)):
+            tl.pop(rng.randrange(len(tl)))
+    elif kind == "single":
+        tl = [rng.choice(big + tl)]
+    elif kind == "shuffled":
+        rng.shuffle(tl)
+        tl = [rng.sample(t, 3) for t in tl]
+    return kind, pts, tl
+
+
+def mesh_query_points(rng, np, spts_f, pts, tl, n, integer):
+    """n query points that are robustly inside / outside every triangle (exact test); (array, containing lists)"""
+    out, conts = [], []
+    tries = 0
+    while len(out) < n and tries < 40 * (n + 1):
+        tries += 1
+        r = rng.random()
+        if integer:
+            p = [float(rng.randint(-2, 10)), float(rng.randint(-2, 10))]
+        elif r < 0.55:
+            t = tl[rng.randrange(len(tl))]
+            a, b, c = rng.randint(1, 12), rng.randint(1, 12), rng.randint(1, 12)
+            q = (a * pts[t[0]] + b * pts[t[1]] + c * pts[t[2]]) / float(a + b + c)
+            p = [round(float(q[0]) * 64) / 64.0, round(float(q[1]) * 64) / 64.0]
+        elif r < 0.8:
+            p = [rng.randint(-8, 40) / 4.0 + 0.125, rng.randint(-8, 40) / 4.0 - 0.0625]
+        else:
+            p = outside_point(rng)
+        robust, cont = locate_exact(spts_f, tl, (common.frac(p[0]), common.frac(p[1])))
+        if robust:
+            out.append(p)
+            conts.append(cont)
+    arr = np.array(out, dtype=float).reshape(len(out), 2)
+    if integer:
+        arr = arr.astype(rng.choice([np.int64, np.int32, np.int16]))
+    return arr, conts
+
+
+def fmt_tce(got):
+    if got[0] == "tce":
+        return "err " + " ".join("1" if b else "0" for b in got[1].tolist())
+    return "exc " + str(got[1])
+
+
+def mesh_case(ctx, rng, lines, pending):
+    """index_alpha_beta / apply of the piecewise affine classes against the exact geometry (oracle) and the model"""
+    import numpy as np
+    import menpo.transform as mt
+    from menpo.transform.piecewiseaffine.base import PythonPWA, TriangleContainmentError
+    from menpo.shape import PointCloud, TriMesh
+    site = "C09/pwa-location"
+    kind, pts, tl = random_mesh(rng, np)
+    A = np.array([[1.25, 0.25], [-0.5, 1.5]]) if rng.random() < 0.7 else np.eye(2)
+    tpts = pts.dot(A) + np.array([rng.randint(-8, 8) / 4.0, rng.randint(-8, 8) / 4.0]) + \
+        np.array([[rng.randint(-2, 2) / 8.0, rng.randint(-2, 2) / 8.0] for _ in range(len(pts))])
+    spts_f, tpts_f = fpts(pts), fpts(tpts)
+    n = rng.choice([0, 1, 2, 3, 4, 5, 6, 7, 8])
+    integer = rng.random() < 0.25
+    x, conts = mesh_query_points(rng, np, spts_f, pts, tl, n, integer)
+    n = len(x)
+    inside = [bool(c) for c in conts]
+    want_mask = [not b for b in inside]
+    ctx.count("mesh:" + kind)
+    ctx.count("mesh-dtype:" + str(x.dtype))
+    ctx.count("mesh-multi-containing", sum(1 for c in conts if len(c) > 1))
+    tlarr = np.array(tl)
+
+    def make(cls):
+        return cls(TriMesh(pts.copy(), trilist=tlarr.copy()), PointCloud(tpts.copy()))
+
+    rp = {"mesh": kind, "source": pts.tolist(), "target": tpts.tolist(), "trilist": tl, "points": x.tolist(),
+          "dtype": str(x.dtype), "containing_triangles": conts}
+    # (1) index_alpha_beta of the non-caching class
+    try:
+        idx, al, be = make(PythonPWA).index_alpha_beta(x.copy())
+        got_iab = ("ok", idx.tolist(), al.tolist(), be.tolist())
+    except TriangleContainmentError as e:
+        got_iab = ("tce", np.asarray(e.points_outside_source_domain))
+    except Exception as e:     # noqa: BLE001
+        got_iab = ("exc", type(e).__name__)
+    ctx.case(("mesh-iab", kind, pts.tobytes(), str(tl), x.tobytes(), str(x.dtype)), nontrivial=n >= 1,
+             sample={"mesh": kind, "n_tris": len(tl), "points": x.tolist()[:4], "inside": inside})
+    if all(inside):
+        # the property does not say which of several containing triangles is taken (the model does: the
+        # highest-numbered one, compared below) - the oracle only demands a triangle that contains the point
+        ok = got_iab[0] == "ok" and len(got_iab[1]) == n and all(got_iab[1][i] in conts[i] for i in range(n))
+        ctx.check(ok, site + "/index_alpha_beta", "triangle-not-containing",
+                  "index %r, the containing triangles are %r" % (got_iab[1] if got_iab[0] == "ok" else got_iab, conts), rp)
+    else:
+        ok = got_iab[0] == "tce" and got_iab[1].tolist() == want_mask
+        ctx.check(ok, site + "/index_alpha_beta", "mask-unbatched",
+                  "failure %r, points outside every source triangle are %r" % (
+                      got_iab[1].tolist() if got_iab[0] == "tce" else got_iab, want_mask), rp)
+    cid = "m%d" % len(lines)
+    lines.append("%s iab %s %s" % (cid, mesh_tokens(pts, tl), common.fmat(x) if n else "0 0"))
+    pending[cid] = ("iab", got_iab, rp)
+    # (2) apply with every batching variant, both classes, arrays and shapes
+    exp_img = [[image_exact(spts_f, tpts_f, tl, (common.frac(p[0]), common.frac(p[1])), t) for t in c]
+               for p, c in zip(x, conts)]
+    ks = sorted({None, 1, max(1, n - 1), max(1, n), n + 2, rng.randint(1, n + 3)}, key=lambda v: -1 if v is None else v)
+    unbatched = {}
+    for cls_name, cls in (("PiecewiseAffine", mt.PiecewiseAffine), ("PythonPWA", PythonPWA)):
+        for k in ks:
+            as_shape = rng.random() < 0.2 and n > 0
+            got = safe_apply(make(cls), PointCloud(x.copy()) if as_shape else x.copy(), batch_size=k)
+            ctx.count("mesh-batch:%s" % ("None" if k is None else "k<n" if k < n else "k=n" if k == n else "k>n"))
+            ctx.case(("mesh-apply", cls_name, kind, pts.tobytes(), str(tl), x.tobytes(), str(x.dtype), k),
+                     nontrivial=(k is not None and 1 < k < n) or (k is not None and k > n > 1))
+            rk = dict(rp, cls=cls_name, batch_size=k)
+            if all(inside):
+                ok = got[0] == "ok" and got[1].shape == (n, 2) and all(
+                    any(all(common.close(got[1][i][d], e[d], 64.0) for d in range(2)) for e in exp_img[i])
+                    for i in range(n))
+                ctx.check(ok, site + "/" + cls_name, "image",
+                          "apply(batch_size=%r) = %r, the barycentric combinations of the target vertices (per containing "
+                          "triangle) are %r" % (k, got[1].tolist() if got[0] == "ok" else fmt_tce(got),
+                                                [[[float(v) for v in e] for e in es] for es in exp_img]), rk)
+                if k is not None and got[0] == "ok":
+                    ctx.check(same(got, unbatched[cls_name]), site + "/" + cls_name, "batched-differs",
+                              "apply(batch_size=%r) differs from apply without batching" % (k,), rk)
+                elif got[0] == "ok":
+                    unbatched[cls_name] = got
+            else:
+                ok = got[0] == "tce" and got[1].tolist() == want_mask
+                ctx.check(ok, site + "/" + cls_name, "mask-batched" if k is not None else "mask-unbatched",
+                          "apply(batch_size=%r): %s, points outside every source triangle are %r" % (
+                              k, got[1].tolist() if got[0] == "ok" else fmt_tce(got), want_mask), rk)
+            if cls_name == "PiecewiseAffine" or k is None:
+                cid = "m%d" % len(lines)
+                lines.append("%s pwa %d %s %s %s" % (cid, k or 0, mesh_tokens(pts, tl), common.fmat(tpts),
+                                                     common.fmat(x) if n else "0 0"))
+                pending[cid] = ("pwa", got, rk)
+    # (3) order of the points: a permutation of the input permutes the result / the mask
+    if n >= 2:
+        sigma = list(range(n))
+        rng.shuffle(sigma)
+        t = make(mt.PiecewiseAffine)
+        first = safe_apply(t, x.copy())
+        second = safe_apply(t, x[sigma].copy())          # same object: the memo must not confuse the two orders
+        fresh = safe_apply(make(PythonPWA), x[sigma].copy(), batch_size=rng.choice([None, 1, 2, n - 1]))
+        ctx.case(("mesh-perm", kind, pts.tobytes(), str(tl), x.tobytes(), tuple(sigma)), nontrivial=True)
+        ctx.count("mesh-permutation")
+        want = (first[0], first[1][sigma]) if first[0] in ("ok", "tce") else first
+        ctx.check(same(second, want, 1e-12) and same(fresh, want, 1e-12), site + "/permutation", "order-dependent",
+                  "apply(x[sigma]) is not apply(x)[sigma] for sigma=%r" % (sigma,), dict(rp, sigma=sigma))
+
+
+# ------------------------------------------------------------------------------- chains and WithDims
+
+def chain_case(ctx, rng, lines, pending):
+    """TransformChain / WithDims / nested chains of affine members: batched = unbatched = member by member = model"""
+    import numpy as np
+    import menpo.transform as mt
+    site = "C09/chain"
+    d0 = rng.choice([2, 3])
+
+    def dy(lo=-4, hi=4, m=2):
+        return rng.randint(lo * 2 ** m, hi * 2 ** m) / float(2 ** m)
+
+    def members(cur, depth):
+        """list of (factory, tokens, kind) and the output dimension"""
+        out = []
+        for _ in range(rng.randint(1, 3)):
+            r = rng.random()
+            if r < 0.2 and depth == 0:
+                sub, cur2 = members(cur, 1)
+                out.append(((lambda sub=sub: mt.TransformChain([f() for f, _, _ in sub])),
+                            [tok for _, toks, _ in sub for tok in toks], "nested"))
+                cur = cur2
+            elif r < 0.4 and cur == 3:
+                dims = rng.choice([[0, 1], [0, 2], [2, 1], [1, 2, 0], [1]])
+                out.append(((lambda dims=dims: mt.WithDims(list(dims))), ["D %d %s" % (len(dims), " ".join(map(str, dims)))],
+                            "WithDims"))
+                cur = len(dims)
+            elif cur in (2, 3):
+                kindm = rng.choice(["Affine", "Translation", "NonUniformScale", "UniformScale"])
+                if kindm == "Affine":
+                    h = np.eye(cur + 1)
+                    h[:cur, :] = [[dy() for _ in range(cur + 1)] for _ in range(cur)]
+                    f = (lambda h=h: mt.Affine(h.copy()))
+                elif kindm == "Translation":
+                    tr = [dy() for _ in range(cur)]
+                    h = np.eye(cur + 1)
+                    h[:cur, cur] = tr
+                    f = (lambda tr=tr: mt.Translation(np.array(tr)))
+                elif kindm == "NonUniformScale":
+                    sc = [dy(1, 3) for _ in range(cur)]
+                    h = np.diag(sc + [1.0])
+                    f = (lambda sc=sc: mt.NonUniformScale(np.array(sc)))
+                else:
+                    sc = dy(1, 3)
+                    h = np.diag([sc] * cur + [1.0])
+                    f = (lambda sc=sc, cur=cur: mt.UniformScale(sc, cur))
+                out.append((f, ["A " + common.fmat(h[:cur, :])], kindm))
+            else:
+                # one column left: only a column selection keeps going
+                out.append(((lambda: mt.WithDims([0])), ["D 1 0"], "WithDims"))
+        return out, cur
+
+    mem, _ = members(d0, 0)
+    n = rng.choice([0, 1, 2, 3, 4, 5, 6, 7])
+    x = np.array([[rng.randint(-32, 32) / 4.0 for _ in range(d0)] for _ in range(n)], dtype=float).reshape(n, d0)
+    if rng.random() < 0.3:
+        x = np.round(x).astype(rng.choice([np.int64, np.int32, np.int16]))
+    toks = [t for _, ts, _ in mem for t in ts]
+    single_withdims = len(mem) == 1 and mem[0][2] == "WithDims"
+
+    def make():
+        return mem[0][0]() if single_withdims else mt.TransformChain([f() for f, _, _ in mem])
+
+    ctx.count("chain-members:" + "+".join(k for _, _, k in mem))
+    ctx.count("chain-dtype:" + str(x.dtype))
+    rp = {"members": [k for _, _, k in mem], "member_tokens": toks, "points": x.tolist(), "dtype": str(x.dtype)}
+    base = safe_apply(make(), x.copy())
+    # member by member, each a fresh transform
+    y = x.copy()
+    try:
+        for f, _, _ in mem:
+            y = f().apply(y)
+        step = ("ok", np.asarray(y))
+    except Exception as e:     # noqa: BLE001
+        step = ("exc", type(e).__name__)
+    ctx.check(base[0] == "ok" and same(base, step), site, "chain-differs-from-members",
+              "chain.apply(x) = %r, applying the members one after the other gives %r" % (
+                  base[1].tolist() if base[0] == "ok" else base, step[1].tolist() if step[0] == "ok" else step), rp)
+    for k in sorted({1, max(1, n - 1), max(1, n), n + 2, rng.randint(1, n + 3)}):
+        got = safe_apply(make(), x.copy(), batch_size=k)
+        ctx.case(("chain", tuple(toks), x.tobytes(), str(x.dtype), k), nontrivial=1 < k < n or k > n > 1,
+                 sample={"members": [kk for _, _, kk in mem], "n": n, "batch_size": k})
+        ctx.check(same(got, base), site, "batched-differs",
+                  "batch_size=%d gives a different result than no batching" % k, dict(rp, batch_size=k))
+        cid = "c%d" % len(lines)
+        lines.append("%s chain %d %d %s %s" % (cid, k, len(toks), " ".join(toks), common.fmat(x) if n else "0 0"))
+        pending[cid] = ("chain", got, dict(rp, batch_size=k))
+    cid = "c%d" % len(lines)
+    lines.append("%s chain 0 %d %s %s" % (cid, len(toks), " ".join(toks), common.fmat(x) if n else "0 0"))
+    pending[cid] = ("chain", base, rp)
+
+
+def chain_pwa_case(ctx, rng, lines, pending):
+    """TransformChain([Translation, PiecewiseAffine]) on exact meshes: mask per input point for every batch size"""
+    import numpy as np
+    import menpo.transform as mt
+    from menpo.shape import PointCloud, TriMesh
+    site = "C09/batch/ChainWithPWA"
+    kind, pts, tl = random_mesh(rng, np)
+    tpts = pts.dot(np.array([[1.25, 0.25], [-0.5, 1.5]])) + np.array([3.0, -2.0])
+    off = [rng.randint(-8, 8) / 4.0, rng.randint(-8, 8) / 4.0]
+    spts_f = fpts(pts)
+    n = rng.choice([0, 1, 2, 3, 4, 5, 6, 7])
+    q, conts = mesh_query_points(rng, np, spts_f, pts, tl, n, False)
+    n = len(q)
+    x = (q - np.array(off)).reshape(n, 2)          # exact: multiples of 1/64 minus multiples of 1/4
+    want_mask = [not c for c in conts]
+    tlarr = np.array(tl)
+
+    def make():
+        return mt.TransformChain([mt.Translation(np.array(off)),
+                                  mt.PiecewiseAffine(TriMesh(pts.copy(), trilist=tlarr.copy()), PointCloud(tpts.copy()))])
+
+    rp = {"mesh": kind, "source": pts.tolist(), "target": tpts.tolist(), "trilist": tl, "translation": off,
+          "points": x.tolist(), "outside": want_mask}
+    for k in sorted({None, 1, 2, max(1, n - 1), max(1, n), n + 2}, key=lambda v: -1 if v is None else v):
+        got = safe_apply(make(), x.copy(), batch_size=k)
+        ctx.case(("chainpwa", kind, pts.tobytes(), str(tl), x.tobytes(), k), nontrivial=k is not None and 1 < k < n)
+        ctx.count("chain-with-pwa")
+        if any(want_mask):
+            ok = got[0] == "tce" and got[1].tolist() == want_mask
+            ctx.check(ok, site, "mask-batched" if k is not None else "mask-unbatched",
+                      "apply(batch_size=%r) on %d points: %s, points leaving the domain are %r" % (
+                          k, n, got[1].tolist() if got[0] == "ok" else fmt_tce(got), want_mask), dict(rp, batch_size=k))
+        else:
+            ctx.check(got[0] == "ok" and got[1].shape == (n, 2), site, "spurious-failure",
+                      "all points in the domain but apply(batch_size=%r) gave %s" % (k, fmt_tce(got) if got[0] != "ok" else got[1].shape),
+                      dict(rp, batch_size=k))
+        cid = "p%d" % len(lines)
+        lines.append("%s chainpwa-fixed %d %s %s %s %s" % (cid, k or 0, common.fqs(off), mesh_tokens(pts, tl),
+                                                         common.fmat(tpts), common.fmat(x) if n else "0 0"))
+        pending[cid] = ("pwa", got, dict(rp, batch_size=k))
+
+
+
 # ------------------------------------------------------------------------------- histories
 
 def history_case(ctx, name, make, ndims, domain, rng, lines, pending):
@@ -212,7 +645,10 @@ def history_case(ctx, name, make, ndims, domain, rng, lines, pending):
                 sub = common.random.Random(rng.random())
                 base, _ = gen_points(sub, arr_len, ndims, domain, 0.0)
                 if v >= 1000:
-                    base[sub.randrange(arr_len)] = outside_point(sub)
+                    o = outside_point(sub)
+                    if len(domain) > 2:
+                        o = [o[0] - domain[2][0], o[1] - domain[2][1]]
+                    base[sub.randrange(arr_len)] = o
                 contents[key] = base
             contents[v] = contents[key] + (v % 10) * 1e-7
         return contents[v]
@@ -272,7 +708,7 @@ def batch_case(ctx, name, make, ndims, domain, rng, lines, pending):
     from menpo.shape import PointCloud
     site = "C09/batch/" + name
     is_pwa = domain != "all"
-    n = rng.randint(1, 9)
+    n = rng.choice([0, 1, 1, 2, 3, 4, 5, 6, 7, 8, 9])
     frac = rng.choice([0.0, 0.0, 0.3, 0.6]) if is_pwa else 0.0
     x, ind = gen_points(rng, n, ndims, domain, frac)
     if not is_pwa and rng.random() < 0.35:
@@ -293,7 +729,7 @@ def batch_case(ctx, name, make, ndims, domain, rng, lines, pending):
         ctx.check(base[0] == "ok", site, "raises", "apply raised %r" % (base[1],), rp)
     for k in range(1, n + 3):
         t = make()
-        as_shape = rng.random() < 0.25
+        as_shape = rng.random() < 0.25 and n > 0
         got = safe_apply(t, PointCloud(x.copy()) if as_shape else x.copy(), batch_size=k)
         ctx.count("batch:%s" % ("k<n" if k < n else "k=n" if k == n else "k>n"))
         ctx.case(("batch", name, n, k, str(x.dtype), tuple(ind)), nontrivial=(1 < k < n or (k > n and n > 1)),
@@ -306,7 +742,7 @@ def batch_case(ctx, name, make, ndims, domain, rng, lines, pending):
         else:
             ctx.check(same(got, base), site, "batched-differs",
                       "batch_size=%d gives a different result than no batching" % k, dict(rp, batch_size=k))
-        if is_pwa and name == "PiecewiseAffine":
+        if is_pwa and name in ("PiecewiseAffine", "ChainWithPWA"):
             cid = "b%d" % len(lines)
             lines.append("%s pwab-fixed %d %d %s" % (cid, k, n, " ".join("1" if b else "0" for b in ind)))
             obs = "ok" if got[0] == "ok" else ("err " + " ".join("1" if b else "0" for b in got[1].tolist())
@@ -318,22 +754,38 @@ def batch_case(ctx, name, make, ndims, domain, rng, lines, pending):
             pending[cid] = ("chunks", "ok " + " ".join(str(min(k, n - lo)) for lo in range(0, n, k)), {"n": n, "k": k})
 
 
-def boolean_image_case(ctx, rng):
-    """BooleanImage.constrain_to_pointcloud: the mask must not depend on the batch size"""
+def boolean_image_case(ctx, rng, lines=None, pending=None):
+    """BooleanImage.constrain_to_pointcloud / pwa_point_in_pointcloud: the mask is the per-pixel containment test
+    (exact geometry on the Delaunay triangles the code itself builds) and does not depend on the batch size"""
     import numpy as np
     from menpo.image import BooleanImage
+    from menpo.image.boolean import pwa_point_in_pointcloud
+    from menpo.transform.piecewiseaffine import PiecewiseAffine
     from menpo.shape import PointCloud
     site = "C09/constrain_to_pointcloud"
     h, w = rng.randint(5, 9), rng.randint(5, 9)
     pc = PointCloud(np.array([[0.5, 0.5], [h - 1.5, 1.0], [h - 2.0, w - 1.5], [1.0, w - 2.0], [h / 2.0, w / 2.0]]) +
                     np.array([[rng.randint(0, 2) / 4.0, rng.randint(0, 2) / 4.0] for _ in range(5)]))
     img = BooleanImage.init_blank((h, w))
+    rp0 = {"shape": [h, w], "points": pc.points.tolist()}
     try:
         base = img.constrain_to_pointcloud(pc).mask.copy()
     except Exception as e:
-        ctx.fail(site, "raises", "constrain_to_pointcloud raised %s" % type(e).__name__, {"shape": [h, w], "points": pc.points.tolist()})
+        ctx.fail(site, "raises", "constrain_to_pointcloud raised %s" % type(e).__name__, rp0)
         return
-    for k in (1, 2, 3, 4, 5, 7, h * w, h * w + 3):
+    # the triangulation the code uses (Delaunay of the cloud), the exact per-pixel truth on it
+    tl = PiecewiseAffine(pc, pc).source.trilist.tolist()
+    spts_f = fpts(pc.points)
+    indices = img.indices()
+    truth = [locate_exact(spts_f, tl, (common.frac(p[0]), common.frac(p[1]))) for p in indices]
+    robust = [r for r, _ in truth]
+    inside = [bool(c) for _, c in truth]
+    rp0["trilist"] = tl
+    flat = base.reshape(-1)
+    bad = [indices[i].tolist() for i in range(len(indices)) if robust[i] and bool(flat[i]) != inside[i]]
+    ctx.check(not bad, site, "mask-not-containment",
+              "unbatched mask differs from the exact containment test at pixels %r" % (bad[:5],), rp0)
+    for k in (1, 2, 3, 4, 5, 7, h * w - 1, h * w, h * w + 3):
         ctx.case(("bimg", h, w, k, pc.points.tobytes()), nontrivial=True)
         try:
             got = img.constrain_to_pointcloud(pc, batch_size=k).mask
@@ -343,78 +795,343 @@ def boolean_image_case(ctx, rng):
             ok = False
             what = "raised %s: %s" % (type(e).__name__, str(e)[:80])
         ctx.count("constrain_to_pointcloud")
-        ctx.check(ok, site, "batched-differs", "batch_size=%d: %s" % (k, what),
-                  {"shape": [h, w], "points": pc.points.tolist(), "batch_size": k})
+        ctx.check(ok, site, "batched-differs", "batch_size=%d: %s" % (k, what), dict(rp0, batch_size=k))
+    # the module-level function on all pixels and on a shuffled subset, with the model
+    for k in (None, 1, rng.randint(2, 6), h * w - 1, h * w + 1):
+        sel = list(range(len(indices)))
+        if rng.random() < 0.5:
+            rng.shuffle(sel)
+            sel = sel[:rng.randint(0, len(sel))]
+        q = indices[sel]
+        try:
+            m = pwa_point_in_pointcloud(pc, q, batch_size=k)
+            got = ("ok", [bool(v) for v in np.asarray(m).tolist()])
+        except Exception as e:     # noqa: BLE001
+            got = ("exc", type(e).__name__)
+        ctx.case(("pip", h, w, k, pc.points.tobytes(), tuple(sel)), nontrivial=True)
+        ctx.count("pwa_point_in_pointcloud")
+        rk = dict(rp0, batch_size=k, pixels=q.tolist())
+        okm = got[0] == "ok" and len(got[1]) == len(sel) and all(
+            got[1][j] == inside[i] for j, i in enumerate(sel) if robust[i])
+        ctx.check(okm, "C09/pwa_point_in_pointcloud", "mask-not-containment",
+                  "batch_size=%r on %d pixels: result %r differs from the exact containment test %r" % (
+                      k, len(sel), got[1] if got[0] == "ok" else got, [inside[i] for i in sel]), rk)
+        if lines is not None:
+            cid = "i%d" % len(lines)
+            lines.append("%s pip %d %s %s" % (cid, k or 0, mesh_tokens(pc.points, tl), common.fmat(q) if len(sel) else "0 0"))
+            pending[cid] = ("pip", (got, [robust[i] for i in sel]), rk)
 
 
-def explore(ctx, n_hist, n_batch, n_bimg, lines, pending):
+N_ZOO = 28
+
+
+def explore(ctx, n_hist, n_batch, n_bimg, lines, pending, n_mesh=0, n_chain=0):
     rng = ctx.rng
-    for rnd in range(max(1, n_hist // 27)):
+    for rnd in range(max(1, n_hist // N_ZOO)):
         z = zoo(rng)
         for name, make, ndims, domain in z:
             reps = 3 if domain != "all" else 1
             for _ in range(reps):
                 history_case(ctx, name, make, ndims, domain, rng, lines, pending)
-    for rnd in range(max(1, n_batch // 27)):
+    for rnd in range(max(1, n_batch // N_ZOO)):
         z = zoo(rng)
         for name, make, ndims, domain in z:
             reps = 3 if domain != "all" else 1
             for _ in range(reps):
                 batch_case(ctx, name, make, ndims, domain, rng, lines, pending)
     for _ in range(n_bimg):
-        boolean_image_case(ctx, rng)
+        boolean_image_case(ctx, rng, lines, pending)
+    for _ in range(n_mesh):
+        mesh_case(ctx, rng, lines, pending)
+        if rng.random() < 0.5:
+            chain_pwa_case(ctx, rng, lines, pending)
+    for _ in range(n_chain):
+        chain_case(ctx, rng, lines, pending)
 
 
-# ------------------------------------------------------------------------------- regenerated write table
+def compare_model(op, obs, reply):
+    """None when the model's reply describes what the implementation did, else a description"""
+    toks = reply.split()
+    if not toks:
+        return "empty reply"
+    if op in ("pwab-fixed", "cache-fixed", "chunks"):
+        return None if reply == obs else "model %r vs implementation %r" % (reply, obs)
+    if op == "iab":
+        if obs[0] == "tce":
+            want = "err " + " ".join("1" if b else "0" for b in obs[1].tolist())
+            return None if reply == want else "model %r vs implementation %r" % (reply, want)
+        if obs[0] != "ok" or toks[0] != "ok":
+            return "model %r vs implementation %r" % (reply, obs[:2])
+        vals = toks[1:]
+        if len(vals) != 3 * len(obs[1]):
+            return "model has %d entries, implementation %d points" % (len(vals) // 3, len(obs[1]))
+        for i in range(len(obs[1])):
+            if int(vals[3 * i]) != int(obs[1][i]):
+                return "point %d: model triangle %s, implementation %d" % (i, vals[3 * i], obs[1][i])
+            if not (common.close(obs[2][i], common.pq(vals[3 * i + 1])) and common.close(obs[3][i], common.pq(vals[3 * i + 2]))):
+                return "point %d: model (alpha, beta) = (%s, %s), implementation (%r, %r)" % (
+                    i, vals[3 * i + 1], vals[3 * i + 2], obs[2][i], obs[3][i])
+        return None
+    if op in ("pwa", "chain"):
+        if obs[0] == "tce":
+            want = "err " + " ".join("1" if b else "0" for b in obs[1].tolist())
+            return None if reply == want else "model %r vs implementation %r" % (reply, want)
+        if obs[0] != "ok" or toks[0] != "ok":
+            return "model %r vs implementation %r" % (reply, obs)
+        flat = [float(v) for v in obs[1].reshape(-1).tolist()]
+        vals = [common.pq(v) for v in toks[1:]]
+        if len(vals) != len(flat):
+            return "model has %d numbers, implementation %d" % (len(vals), len(flat))
+        scale = max([abs(v) for v in flat] + [1.0])
+        bad = [i for i in range(len(flat)) if not common.close(flat[i], vals[i], scale)]
+        return None if not bad else "entry %d: model %s, implementation %r" % (bad[0], toks[1 + bad[0]], flat[bad[0]])
+    if op == "pip":
+        got, robust = obs
+        if got[0] != "ok" or toks[0] != "ok":
+            return "model %r vs implementation %r" % (reply, got)
+        vals = [t == "1" for t in toks[1:]]
+        if len(vals) != len(got[1]):
+            return "model has %d entries, implementation %d" % (len(vals), len(got[1]))
+        bad = [i for i in range(len(vals)) if robust[i] and vals[i] != got[1][i]]
+        return None if not bad else "pixel %d: model %r, implementation %r" % (bad[0], vals[bad[0]], got[1][bad[0]])
+    return "unknown op " + op
+
+
+# ------------------------------------------------------------------------------- regenerated tables
 
 _deep = common.deep_digest
 attr_writes = common.attr_writes
 
+ANCHOR_EXTRA_MODULES = ["menpo.image.boolean"]
+
+
+def anchored_modules():
+    """name -> module for menpo.transform.** (tests excluded) and the other anchored files"""
+    import importlib
+    import pkgutil
+    import menpo.transform
+    mods = {"menpo.transform": menpo.transform}
+    for m in pkgutil.walk_packages(menpo.transform.__path__, "menpo.transform."):
+        if ".test" in m.name:
+            continue
+        try:
+            mods[m.name] = importlib.import_module(m.name)
+        except Exception:      # noqa: BLE001 - optional dependencies
+            pass
+    for n in ANCHOR_EXTRA_MODULES:
+        mods[n] = importlib.import_module(n)
+    return mods
+
+
+def _is_mutable_container(v):
+    import collections
+    import numpy as np
+    return isinstance(v, (dict, list, set, bytearray, np.ndarray, collections.deque, collections.abc.MutableMapping,
+                          collections.abc.MutableSequence, collections.abc.MutableSet))
+
+
+def _dunder(k):
+    return k.startswith("__") and k.endswith("__")
+
+
+def hidden_state():
+    """places other than instance attributes where state could survive between two apply calls, found by walking
+    the anchored modules: sorted list of (kind, module, qualified name)"""
+    import types
+    rows = set()
+
+    def check_fn(f, mod, qual):
+        if hasattr(f, "cache_info") or hasattr(f, "cache_clear"):
+            rows.add(("memoized", mod, qual))
+        f = getattr(f, "__wrapped__", f)
+        if isinstance(f, (staticmethod, classmethod)):
+            f = f.__func__
+        if isinstance(f, property):
+            for g in (f.fget, f.fset, f.fdel):
+                if g is not None:
+                    check_fn(g, mod, qual)
+            return
+        if not isinstance(f, types.FunctionType):
+            return
+        for dv in (f.__defaults__ or ()) + tuple((f.__kwdefaults__ or {}).values()):
+            if _is_mutable_container(dv):
+                rows.add(("mutable-default", mod, qual))
+        if [k for k in vars(f) if k != "__wrapped__"]:
+            rows.add(("function-attribute", mod, qual))
+        for cell in f.__closure__ or ():
+            try:
+                if _is_mutable_container(cell.cell_contents):
+                    rows.add(("closure-cell", mod, qual))
+            except ValueError:
+                pass
+
+    for mname, mod in anchored_modules().items():
+        for k, v in vars(mod).items():
+            if _dunder(k):
+                continue
+            if _is_mutable_container(v):
+                rows.add(("module-global", mname, k))
+            elif isinstance(v, type) and v.__module__ == mname:
+                for ak, av in vars(v).items():
+                    if _dunder(ak):
+                        continue
+                    if _is_mutable_container(av):
+                        rows.add(("class-attribute", mname, v.__name__ + "." + ak))
+                    else:
+                        check_fn(av, mname, v.__name__ + "." + ak)
+            elif getattr(v, "__module__", None) == mname:
+                check_fn(v, mname, k)
+    return sorted(rows)
+
+
+def globals_digest():
+    """digest of every module global and class attribute of the anchored modules that holds data"""
+    import types
+    out = {}
+    skip = (types.ModuleType, types.FunctionType, types.BuiltinFunctionType, type, property, staticmethod, classmethod)
+    for mname, mod in anchored_modules().items():
+        for k, v in vars(mod).items():
+            if _dunder(k):
+                continue
+            if isinstance(v, type) and v.__module__ == mname:
+                for ak, av in vars(v).items():
+                    if not _dunder(ak) and not isinstance(av, skip) and not callable(av):
+                        out["%s.%s.%s" % (mname, v.__name__, ak)] = _deep(av)
+            elif not isinstance(v, skip) and not callable(v):
+                out["%s.%s" % (mname, k)] = _deep(v)
+    return out
+
+
+def transform_classes():
+    """names of all subclasses of Transform defined by the live menpo package"""
+    import importlib
+    for m in ("menpo.shape", "menpo.image", "menpo.landmark", "menpo.model", "menpo.feature", "menpo.math"):
+        try:
+            importlib.import_module(m)
+        except Exception:      # noqa: BLE001
+            pass
+    anchored_modules()
+    from menpo.transform.base import Transform
+
+    def subs(c):
+        out = set()
+        for d in c.__subclasses__():
+            if d.__module__.startswith("menpo.") and ".test" not in d.__module__:
+                out.add(d)
+                out |= subs(d)
+        return out
+    return sorted({c.__name__ for c in subs(Transform)})
+
 
 def write_table(seed=0):
-    """class name -> attributes written by apply(), measured on live objects (arrays, shapes, batches, failures)"""
+    """class name -> attributes written by any public application, measured on live objects: arrays, shapes, every
+    batching variant, zero points, integer input, failures, _apply_inplace, through a chain / a composition / a copy /
+    the pseudoinverse"""
+    import warnings
     import numpy as np
+    import menpo.transform as mt
     from menpo.shape import PointCloud
     rng = common.random.Random(12345 + seed)
     table = {}
     for name, make, ndims, domain in zoo(rng):
         t = make()
         cls = type(t).__name__
+        if name == "ChainWithPWA":
+            cls = None          # the chain itself is covered by TransformChain; its member is measured below
         w = set(table.get(cls, ()))
         x1, _ = gen_points(rng, 5, ndims, domain, 0.0)
         x2, _ = gen_points(rng, 4, ndims, domain, 0.0)
+        xi = np.round(x1).astype(np.int64)
+
+        def inplace(public):
+            with warnings.catch_warnings():
+                warnings.simplefilter("ignore")
+                pc = PointCloud(x1.copy())
+                (t.apply_inplace if public else t._apply_inplace)(pc)
+
         acts = [lambda: t.apply(x1), lambda: t.apply(x2.copy()), lambda: t.apply(PointCloud(x1.copy())),
-                lambda: t.apply(x1, batch_size=2), lambda: t.apply(x1)]
+                lambda: t.apply(x1, batch_size=2), lambda: t.apply(x1),
+                lambda: t.apply(x1, batch_size=1), lambda: t.apply(x1, batch_size=4), lambda: t.apply(x1, batch_size=9),
+                lambda: t.apply(PointCloud(x1.copy()), batch_size=2), lambda: t.apply(x1[:0]),
+                lambda: t.apply(x1[:0], batch_size=3), lambda: t.apply(x1[:1]), lambda: t.apply(xi),
+                lambda: t.apply(xi, batch_size=2), lambda: inplace(False), lambda: inplace(True),
+                lambda: t.copy().apply(x1), lambda: mt.TransformChain([t]).apply(x1, batch_size=2),
+                lambda: t.compose_before(make()).apply(x1), lambda: t.compose_after(make()).apply(x1),
+                lambda: t.pseudoinverse().apply(t.apply(x1)), lambda: t.pseudoinverse().apply(t.apply(x1), batch_size=2)]
         if domain != "all":
             xo, _ = gen_points(rng, 4, ndims, domain, 0.6)
-            xo[0] = outside_point(rng)
-            acts.append(lambda: t.apply(xo))
+            o = outside_point(rng)
+            xo[0] = [o[0] - domain[2][0], o[1] - domain[2][1]] if len(domain) > 2 else o
+            acts += [lambda: t.apply(xo), lambda: t.apply(xo, batch_size=3), lambda: t.apply(x1)]
+        if cls is None:
+            member = t.transforms[-1]
+            wm = set(table.get(type(member).__name__, ()))
+            for a in acts:
+                wm.update(attr_writes(member, a))
+            table[type(member).__name__] = sorted(wm)
+            continue
         for a in acts:
             w.update(attr_writes(t, a))
         table[cls] = sorted(w)
     return table
 
 
+def _lean_strs(xs):
+    return "[%s]" % ", ".join('"%s"' % x for x in xs)
+
+
 def generated(ctx):
+    before = globals_digest()
     table = write_table()
+    after = globals_digest()
+    gwrites = sorted(k for k in set(before) | set(after) if before.get(k) != after.get(k))
+    hidden = hidden_state()
+    classes = transform_classes()
     body = ",\n   ".join('("%s", [%s])' % (c, ", ".join('"%s"' % a for a in table[c])) for c in sorted(table))
-    gen = ("/- REGENERATED by harness/c09.py from the live menpo classes on every run: for every transform class, the\n"
-           "   instance attributes that apply() rebinds, adds or modifies in place.  Do not edit. -/\n"
+    hid = ",\n   ".join('("%s", "%s", "%s")' % r for r in hidden)
+    gen = ("/- REGENERATED by harness/c09.py from the live menpo classes and modules on every run.  Do not edit.\n"
+           "   applyWrites: for every transform class, the instance attributes that any public application rebinds,\n"
+           "   adds or modifies in place; transformClasses: every subclass of Transform the package defines;\n"
+           "   hiddenState: places for state other than instance attributes (kind, module, name) in the anchored\n"
+           "   modules; globalWrites: module globals / class attributes changed by the measured applications. -/\n"
            "import MenpoModel.Core.C09\n\nnamespace MenpoModel.Generated.C09\nopen MenpoModel.C09\n\n"
-           "def applyWrites : WriteTable :=\n  [%s]\n\nend MenpoModel.Generated.C09\n" % body)
+           "def applyWrites : WriteTable :=\n  [%s]\n\n"
+           "def transformClasses : List String :=\n  %s\n\n"
+           "def hiddenState : HiddenState :=\n  [%s]\n\n"
+           "def globalWrites : List String :=\n  %s\n\n"
+           "end MenpoModel.Generated.C09\n" % (body, _lean_strs(classes), hid, _lean_strs(gwrites)))
     ctx.notes["apply_write_table"] = table
+    ctx.notes["transform_classes"] = classes
+    ctx.notes["hidden_state_places"] = hidden
+    ctx.notes["global_writes"] = gwrites
     ok = common.build_generated(ctx, {"MenpoModel/Generated/C09Writes.lean": gen},
-                                ["MenpoModel.Generated.C09Writes", "MenpoModel.GenProps.C09"], 1)
+                                ["MenpoModel.Generated.C09Writes", "MenpoModel.GenProps.C09"], len(GEN_THEOREMS))
     if not ok and ctx.broken_obligations:
-        ctx.broken_obligations[-1]["obligation"] = "MenpoModel.GenProps.C09.applyWrites_ok"
-        ctx.broken_obligations[-1]["observed_attribute_writes_of_apply"] = {c: a for c, a in table.items() if a}
-        ctx.broken_obligations[-1]["expected"] = {"CachedPWA": ["_applied_points", "_iab"], "every other class": []}
+        bo = ctx.broken_obligations[-1]
+        src = open(common.os.path.join(common.LEAN, "MenpoModel", "GenProps", "C09.lean")).read().splitlines()
+        broken = set()
+        for e in bo.get("errors", []) + bo.get("output_tail", "").splitlines():
+            m = common.re.search(r"GenProps/C09\.lean:(\d+):", e)
+            if m:
+                for ln in range(min(int(m.group(1)), len(src)) - 1, -1, -1):
+                    mm = common.re.match(r"theorem (\w+)", src[ln])
+                    if mm:
+                        broken.add("MenpoModel.GenProps.C09." + mm.group(1))
+                        break
+        bo["obligation"] = sorted(broken) or "MenpoModel.GenProps.C09.*"
+        bo["observed_attribute_writes_of_apply"] = {c: a for c, a in table.items() if a}
+        bo["observed_transform_classes_not_in_write_table"] = [c for c in classes if c not in table]
+        bo["observed_hidden_state_places"] = hidden
+        bo["observed_global_writes"] = gwrites
+        bo["expected"] = {"CachedPWA": ["_applied_points", "_iab"], "every other class": [],
+                          "classes outside the table": ["AbstractPWA", "ComposableTransform", "RadialBasisFunction"],
+                          "hidden state places": [], "global writes": []}
 
 
 def search(ctx):
     lines, pending = [], {}
     before = ctx.evaluations
-    explore(ctx, 600, 300, 20, lines, pending)
+    explore(ctx, 600, 300, 10, lines, pending, 60, 60)
     ctx.searched += ctx.evaluations - before
     return bool(ctx.failures)
 
@@ -422,19 +1139,20 @@ def search(ctx):
 def run(ctx):
     generated(ctx)
     if ctx.broken_obligations:
-        # the model's assumption about which classes keep state no longer matches the live code: audit what still
+        # the model's assumption about where state lives no longer matches the live code: audit what still
         # builds, then let the oracle search for a history on which the new state shows
-        common.prepare_lean(ctx, PROP, IMPORTS[:1], THEOREMS[:-1])
+        common.prepare_lean(ctx, PROP, IMPORTS[:1], [t for t in THEOREMS if t not in GEN_THEOREMS])
     else:
         common.prepare_lean(ctx, PROP, IMPORTS, THEOREMS, targets=["MenpoModel.Props.C09", "MenpoModel.Drive.C09",
                                                                    "MenpoModel.GenProps.C09"])
     lines, pending = [], {}
-    explore(ctx, ctx.n(160, 2400), ctx.n(80, 1000), ctx.n(6, 60), lines, pending)
+    explore(ctx, ctx.n(240, 5000), ctx.n(120, 2400), ctx.n(8, 60), lines, pending, ctx.n(120, 2400), ctx.n(100, 2000))
     if lines:
         model = common.run_driver(PROP, lines)
         for cid, (op, obs, rp) in pending.items():
-            if model[cid] != obs:
-                ctx.mismatch(op, "model %r vs implementation %r" % (model[cid], obs), rp)
+            why = compare_model(op, obs, model[cid])
+            if why is not None:
+                ctx.mismatch(op, why, rp)
     return ctx.finish(search)
 
 
